@@ -326,3 +326,53 @@ def install(reg):
     NATIVE.add(E.PTP + "visit_literal_set", _gen_literal_set, _build_literal_set)
     for n in ("visit_op1_form_log_not", "visit_op1_form_inv_pos", "visit_op1_form_inv_neg"):
         _unary_form(n)
+
+
+# ---- funnel
+def _gen_error_location(rng, i):
+    opt = lambda xs: rng.choice(xs)
+    return {"path0": opt([None, "a.dsdl"]), "line0": opt([None, 0, 3]), "path": opt([None, "b.dsdl"]), "line": opt([None, 0, 7])}
+
+
+def _build_error_location(d):
+    from pathlib import Path
+    from pydsdl import _error
+
+    p = lambda x: Path(x) if x is not None else None
+    e = _error.InvalidDefinitionError("x", path=p(d["path0"]), line=d["line0"])
+    return (lambda: e.set_error_location_if_unknown(path=p(d["path"]), line=d["line"])), \
+        {"self": e, "path": p(d["path"]), "line": d["line"]}
+
+
+def _gen_parse(rng, i):
+    from . import c13
+
+    return {"text": rng.choice(c13.TARGETED) + "\n"}
+
+
+def _build_parse(d):
+    from pydsdl import _parser, _error, _expression, _serializable
+
+    class Stub(_parser.StatementStreamProcessor):
+        def on_header_comment(self, comment): pass
+        def on_attribute_comment(self, comment): pass
+        def on_constant(self, constant_type, name, value): pass
+        def on_field(self, field_type, name): pass
+        def on_padding_field(self, padding_field_type): pass
+        def on_directive(self, line_number, directive_name, associated_expression_value): pass
+        def on_service_response_marker(self): pass
+
+        def resolve_top_level_identifier(self, name):
+            raise _error.InvalidDefinitionError("undefined identifier")
+
+        def resolve_versioned_data_type(self, name, version):
+            raise _error.InvalidDefinitionError("undefined type")
+
+    st = Stub()
+    return (lambda: _parser.parse(d["text"], st, strict=False)), {"text": d["text"], "statement_stream_processor": st,
+                                                                    "strict": False}
+
+
+def install_funnel():
+    NATIVE.add("pydsdl._error.Error.set_error_location_if_unknown", _gen_error_location, _build_error_location)
+    NATIVE.add(E.PARSER + "parse", _gen_parse, _build_parse)
